@@ -163,7 +163,9 @@ NoNewTasksAfterStop(P, O, ev) ==
 \* scheduler: it must find the workflow finished), so nothing is started by it
 WaitingStaysAfterStop(P, O, ev) ==
   \A w \in Rng(P.wf) : (w.state \in Final /\ ev.what # "rerun" /\ Has(Rng(O.wf), w.sid) /\ By(Rng(O.wf), w.sid).state \in Final)
-       => \A t \in TasksOf(P, w.sid) : (t.state = "WAITING" /\ Has(Rng(O.tk), t.sid)) =>
+       \* (a join that had started already and was set back to WAITING by a later trigger - KF-C04-1 - still has its action in
+       \*  flight: the late result completes it; the clause is about joins that never started)
+       => \A t \in TasksOf(P, w.sid) : (t.state = "WAITING" /\ Kids(P, t.sid) = {} /\ Has(Rng(O.tk), t.sid)) =>
              /\ By(Rng(O.tk), t.sid).state \in {"WAITING", "ERROR", "CANCELLED"}
              /\ Kids(O, t.sid) = Kids(P, t.sid)
 \* an acknowledged pause: the execution and its unfinished sub-executions are PAUSED
